@@ -192,6 +192,8 @@ struct ExecOut {
     cpu_queries: u64,
     /// after the in-place change: (dot_f64, sequential dot) on the changed data
     mutated: Option<(f64, f64)>,
+    /// v.dot_f64(&v): the same object as receiver and argument
+    self_dot: f64,
 }
 
 fn execute_raw(case: &Case) -> (Vec<ExecReport>, Vec<ExecOut>) {
@@ -202,9 +204,12 @@ fn execute_raw(case: &Case) -> (Vec<ExecReport>, Vec<ExecOut>) {
         verif_seam::num_cpus::set_override(Some(c.cpus));
         let q0 = verif_seam::num_cpus::calls();
         if c.decoy_len > 0 {
+            // the earlier product ran under a larger CPU count (the affinity shrank since)
+            verif_seam::num_cpus::set_override(Some(c.cpus + 1 + c.decoy_len % 5));
             let a = Vector::<f64>::create((0..c.decoy_len).map(|i| (i % 13) as f64 + 1.0).collect());
             let b = Vector::<f64>::create((0..c.decoy_len).map(|i| (i % 7) as f64 - 3.5).collect());
             let _ = a.dot_f64(&b);
+            verif_seam::num_cpus::set_override(Some(c.cpus));
         }
         let mut v = Vector::<f64>::create(c.v.clone());
         let w = Vector::<f64>::create(c.w.clone());
@@ -222,6 +227,7 @@ fn execute_raw(case: &Case) -> (Vec<ExecReport>, Vec<ExecOut>) {
             probes.push(v.dot_f64(&e));
         }
         let seq = v.dot(&w);
+        let self_dot = v.dot_f64(&v);
         let mutated = if c.mutate && !c.v.is_empty() {
             let k = c.v.len() / 2;
             v.vec[k] = mutated_value(c.v[k]);
@@ -232,7 +238,7 @@ fn execute_raw(case: &Case) -> (Vec<ExecReport>, Vec<ExecOut>) {
         let q1 = verif_seam::num_cpus::calls();
         verif_seam::num_cpus::set_override(None);
         let mut o = o2.lock().unwrap();
-        o[idx] = ExecOut { done: true, r1, r2, probes, seq, operands_intact: intact, cpu_queries: q1 - q0, mutated };
+        o[idx] = ExecOut { done: true, r1, r2, probes, seq, operands_intact: intact, cpu_queries: q1 - q0, mutated, self_dot };
     });
     verif_seam::num_cpus::set_override(None);
     let outs = outs.lock().unwrap().clone();
@@ -300,7 +306,7 @@ impl Prop for C16 {
             Tier::Thorough => 8,
         };
         // every call spawns `cpus` tasks; ids grow over the calls of one execution
-        let max_tasks = cpus * (4 + probes.len());
+        let max_tasks = cpus * (5 + probes.len());
         let scheds = (0..k).map(|_| SchedSpec::draw(&mut srng, max_tasks)).collect();
         let mut hrng = rng.fork(4);
         let decoy_len = if hrng.chance(0.35) { len + hrng.urange(1, 3 * cpus + 2) } else { 0 };
@@ -369,7 +375,7 @@ impl Prop for C16 {
                 stats.count("fault.stalled_worker");
             }
         }
-        stats.add("dot_f64_calls", (reports.len() * (2 + case.probes.len() + (case.decoy_len > 0) as usize + (case.mutate && len > 0) as usize)) as u64);
+        stats.add("dot_f64_calls", (reports.len() * (3 + case.probes.len() + (case.decoy_len > 0) as usize + (case.mutate && len > 0) as usize)) as u64);
 
         // ---- oracle (c): every execution completes — no panic, no deadlock
         for (k, r) in reports.iter().enumerate() {
@@ -447,6 +453,20 @@ impl Prop for C16 {
                     );
                 }
             }
+            // the same object as receiver and argument
+            {
+                stats.log.f64(o.self_dot);
+                let ok = match case.kind {
+                    Kind::Exact => o.self_dot.to_bits() == (exact_i128(&case.v, &case.v) as f64).to_bits(),
+                    Kind::General => {
+                        let (s4, a4) = dot2(&case.v, &case.v);
+                        (o.self_dot - s4).abs() <= gamma * a4 + f64::MIN_POSITIVE
+                    }
+                };
+                if !ok {
+                    return violation("value-mismatch", "dot_f64:self-product", format!("len={len} cpus={cpus} schedule#{k}: v.dot_f64(&v) = {:e} ({:016x}), sequential v.dot(&v) = {:e}", o.self_dot, o.self_dot.to_bits(), Vector::<f64>::create(case.v.clone()).dot(&Vector::<f64>::create(case.v.clone()))));
+                }
+            }
             // the same buffers with one element changed in place: the answer must follow the data
             if let Some((m1, mseq)) = o.mutated {
                 let mut v2 = case.v.clone();
@@ -499,7 +519,7 @@ impl Prop for C16 {
         }
         // recorded, not asserted: worker tasks per call, CPU-count queries
         if let Some(r) = reports.first() {
-            let calls = 2 + case.probes.len() + (case.decoy_len > 0) as usize + (case.mutate && len > 0) as usize;
+            let calls = 3 + case.probes.len() + (case.decoy_len > 0) as usize + (case.mutate && len > 0) as usize;
             let workers_per_call = r.max_task_id as usize / calls.max(1);
             stats.seen("workers_per_call_vs_cpus", ((workers_per_call as u64) << 16) | cpus as u64);
             if workers_per_call != cpus {
